@@ -97,19 +97,23 @@ def dfs_programs():
 
 
 def gen_wg(rng):
-    """poll / env items; a tiny replica of the waiter's control flow keeps the count from underflowing
-    (gap operations only happen when the poll reaches the schedule point)"""
+    """poll / env items; a tiny replica of the waiter's control flow (code after the fix: the future
+    is created, the count checked, then the schedule point, then the await) keeps the count from
+    underflowing: gap operations only happen when the poll reaches the schedule point"""
     items = []
     st = {"count": 0, "parked": False, "woken": False}
 
-    def apply(ops, in_gap):
+    def apply(ops):
+        """returns True if some done() brought the count to zero (notify_waiters was called)"""
+        notified = False
         for o in ops:
             if o[0] == "a":
                 st["count"] += o[1]
             else:
                 st["count"] -= 1
-                if st["count"] == 0 and st["parked"] and not in_gap:
-                    st["woken"] = True
+                if st["count"] == 0:
+                    notified = True
+        return notified
 
     def ops(maxn):
         out = []
@@ -127,23 +131,26 @@ def gen_wg(rng):
     if rng.random() < 0.85:
         o = [["a", rng.randrange(1, 4)]]
         items.append(["env", o])
-        apply(o, False)
+        apply(o)
     n = rng.choice([2, 3, 5, 8])
     for k in range(n + 1):
         if k == n or rng.random() < 0.55:
             gap = ops(2) if (k < n and rng.random() < 0.6) else []
             items.append(["poll", gap])
-            reaches = (st["count"] != 0) if not st["parked"] else (st["woken"] and st["count"] != 0)
-            if st["parked"] and st["woken"] and st["count"] == 0:
-                st["parked"] = False
-            if reaches:
-                st["parked"] = False
-                apply(gap, True)
-                st["parked"], st["woken"] = True, False
+            if st["parked"] and not st["woken"]:
+                continue                       # the poll finds the future still pending
+            st["parked"] = False
+            if st["count"] == 0:
+                continue                       # returns (fast path / check after the wake-up)
+            # future created, count checked non-zero: the schedule point is reached
+            if apply(gap) and st["count"] == 0:
+                continue                       # the future was notified in the gap; re-check sees zero: returns
+            st["parked"], st["woken"] = True, False
         else:
             o = ops(3)
             items.append(["env", o])
-            apply(o, False)
+            if apply(o) and st["parked"]:
+                st["woken"] = True
     return {"k": "wg", "items": items}
 
 
@@ -444,4 +451,4 @@ def main(argv):
         "room / an element is available (the harness checks the real wakers: no runnable thread while an item is queued = violation)",
         "atomics are sequentially consistent in the model (AcqRel in the code); the harness runs one thread at a time",
         "one producer per pipe (the channel is spsc); ready_capacity >= number of pipes (documented requirement of ReadyPipeQueue::new)",
-        "tokio::sync::Notify: notify_waiters() wakes exactly the Notified futures that already exist (tokio docs)"])
+        "tokio::sync::Notify: notify_waiters() wakes every Notified future that already exists, polled or not (tokio docs)"])
